@@ -347,6 +347,85 @@ func init() {
 				func() *ref.Node { return ref.List(ref.Uints(ref.U1, 1), ref.Ell("?")) },
 			}
 			bigN := []int{9, 10, 11, 12, 25, 100, 101}
+			// long chains: every list holds a variable, an ellipsis and - after the ellipsis, so that nothing multiplies - the
+			// next list. The number of ellipses to fill and to keep must not be computed as a product that can wrap.
+			chainDepths := []int{1, 2, 8, 31, 32, 33, 62, 63, 64, 65, 66, 100}
+			chainPatterns := []string{"every ellipsis = 1", "every ellipsis = 0", "all but the innermost two = 1", "all but the outermost two = 2", "only the innermost = 3",
+				"counts 65535 65535 65535 32767 2 at the five outermost levels"}
+			chain := func(depth int) *ref.Node {
+				var n *ref.Node
+				for k := depth - 1; k >= 0; k-- {
+					ch := []*ref.Node{{Kind: ref.U1, Elems: []ref.Elem{{Var: "?"}}}, ref.Ell("...")}
+					if n != nil {
+						ch = append(ch, n)
+					}
+					n = ref.List(ch...)
+				}
+				return n
+			}
+			sp = append(sp, h.Space{Name: "chains-of-lists-each-with-an-ellipsis", Count: product(len(chainDepths), len(chainPatterns)), ChunkHint: 1,
+				Describe: func(i uint64) interface{} {
+					d := unrank(i, len(chainDepths), len(chainPatterns))
+					return fmt.Sprintf("chain of %d lists <L v ... <next>>, %s", chainDepths[d[0]], chainPatterns[d[1]])
+				},
+				Run: func(c *h.Ctx, i uint64) {
+					d := unrank(i, len(chainDepths), len(chainPatterns))
+					depth := chainDepths[d[0]]
+					tmpl := chain(depth)
+					nameTemplate(tmpl)
+					ells := ellipsisNames(tmpl) // outermost first
+					counts := map[string]int{}
+					for k, e := range ells {
+						switch d[1] {
+						case 0:
+							counts[e] = 1
+						case 1:
+							counts[e] = 0
+						case 2:
+							if k < len(ells)-2 {
+								counts[e] = 1
+							}
+						case 3:
+							if k >= 2 {
+								counts[e] = 2
+							}
+						case 4:
+							if k == len(ells)-1 {
+								counts[e] = 3
+							}
+						case 5:
+							if k < 5 {
+								counts[e] = []int{65535, 65535, 65535, 32767, 2}[k]
+							}
+						}
+					}
+					if len(counts) == 0 {
+						c.Case(0, false, "nothing-to-fill")
+						return
+					}
+					goMap := map[string]interface{}{}
+					for k, v := range counts {
+						goMap[k] = v
+					}
+					in := fmt.Sprintf("chain of %d lists <L v ... <next>>, %s", depth, chainPatterns[d[1]])
+					res, pan := tryFill(Build(tmpl), goMap)
+					c.Ops(1)
+					if pan != "" {
+						c.Fail("ellipsis-fill-refused", in, pan)
+						c.Case(0, true, "bad")
+						return
+					}
+					want := refEllipsisFill(tmpl, counts)
+					if dd := matchesRef(res, want); dd != "" {
+						c.Fail("expansion-differs", in, trunc(dd, 600))
+						c.Case(0, true, "bad")
+						return
+					}
+					if dup := uniqueNames(res.Variables()); dup != "" {
+						c.Fail("duplicate-name-after-expansion", in, dup)
+					}
+					c.Case(0, true, "expanded")
+				}})
 			sp = append(sp, h.Space{Name: "large-repeat-counts", Count: uint64(len(bigT) * len(bigN) * 2),
 				Describe: func(i uint64) interface{} {
 					d := unrank(i, len(bigT), len(bigN), 2)
